@@ -113,12 +113,37 @@ Proof.
   - rewrite IHa, IHb; [reflexivity| |]; intros x Hx; apply H; apply in_or_app; auto.
 Qed.
 
+(* within the depth limit the recursive evaluation is the plain one *)
+Lemma eval_lim_enough V truth e i : forall lim, (depth e <= lim)%nat -> eval_lim V truth lim e i = eval V truth e i.
+Proof.
+  induction e as [a|e IH|a IHa b IHb|a IHa b IHb]; intros [|l] H; cbn [depth] in H; try lia; cbn [eval_lim eval].
+  - reflexivity.
+  - rewrite IH by lia. reflexivity.
+  - rewrite IHa, IHb by lia. reflexivity.
+  - rewrite IHa, IHb by lia. reflexivity.
+Qed.
+
+Lemma eval_v_enough V truth e i :
+  eval_depth_limit V = 0%nat \/ (depth e <= eval_depth_limit V)%nat -> eval_v V truth e i = eval V truth e i.
+Proof.
+  unfold eval_v. intros [->|H]; [reflexivity|]. destruct (eval_depth_limit V) eqn:E; [reflexivity|].
+  now apply eval_lim_enough.
+Qed.
+
+(* a chain deeper than the limit raises RecursionError on every environment, whatever the operands are *)
+Lemma eval_lim_spine V truth i e : forall lim, (lim < spine e)%nat ->
+  eval_lim V truth lim e i = VExc (lit "RecursionError").
+Proof.
+  induction e as [a|e IH|a IHa b IHb|a IHa b IHb]; intros [|l] H; cbn [spine] in H; try reflexivity; try lia;
+    cbn [eval_lim]; [rewrite IH by lia|rewrite IHa by lia|rewrite IHa by lia]; reflexivity.
+Qed.
+
 (* calls are independent of each other: the i-th result is the evaluation on the i-th environment alone,
    whatever was evaluated before on the same (cached) expression *)
 Lemma outcome_nth V truth n e i d : (i < n)%nat ->
-  nth i (outcome V truth n (Ok e)) d = eval V truth e i.
+  nth i (outcome V truth n (Ok e)) d = eval_v V truth e i.
 Proof.
-  intros Hi. cbn [outcome]. rewrite (nth_indep _ d (eval V truth e 0)) by (now rewrite map_length, seq_length).
+  intros Hi. cbn [outcome]. rewrite (nth_indep _ d (eval_v V truth e 0)) by (now rewrite map_length, seq_length).
   rewrite map_nth. rewrite seq_nth by exact Hi. reflexivity.
 Qed.
 
